@@ -30,7 +30,7 @@ func runC05(tb ev.TB, p sim.Prog) ev.Result {
 		length int
 	}
 	var states []*repState
-	objDigest := map[any]string{} // entry object -> full digest when first seen (any replica)
+	objDigest := map[any]string{}   // entry object -> full digest when first seen (any replica)
 	sharedSince := map[string]int{} // hash -> op index at which it was first held by >= 2 replicas
 	obs := func(tb ev.TB, w *sim.World, info *sim.OpInfo) {
 		switch info.Op.Kind {
